@@ -1072,7 +1072,7 @@ class Exec:
     def post_vcs(self, a, res, x, ordn, line):
         C = self.C
         t = C.returns
-        ok = (t == "int" and is_intlike(res)) or (t == "bool" and is_boollike(res)) or (isinstance(res, Rec) and res.cls == t) or (t == "any")
+        ok = (t == "int" and is_intlike(res)) or (t == "bool" and is_boollike(res)) or (isinstance(res, Rec) and res.cls == t) or (t == "any") or (t == "list" and isinstance(res, list))
         if not ok:
             raise Outside(f"return value of kind {res.cls if isinstance(res, Rec) else type(res).__name__} where the contract declares {t}")
         e = NS(old=a, r=NS(**{k: v for k, v in x.locals.items()}), g=NS(**x.ghosts), res=res)
